@@ -354,6 +354,43 @@ def node_at(t, path):
     return t
 
 
+def extras(chk, steps):
+    """public operations outside the modelled grammar: checked by the well-formedness oracle only (a raise is an acceptable outcome)"""
+    import pyuncertainnumber.pba as pba
+    from pyuncertainnumber.pba.pbox_abc import Staircase
+    pbx.patch_fast_moments()
+    rng = chk.rng
+    mk = lambda X: Staircase(np.array(X[0]), np.array(X[1]))
+    for rep in range(2 if chk.tier == "quick" else 12):
+        for kind in ("pos", "neg", "straddle", "interval", "precise", "steps"):
+            X = pbx.gen_bounds(rng, steps, kind, dy=False)
+            Yp = pbx.gen_bounds(rng, steps, "pos", dy=False)
+            x, yp = mk(X), mk(([0.2 + v / 4 for v in Yp[0]], [0.3 + v / 4 for v in Yp[1]]))
+            Xp = pbx.gen_bounds(rng, steps, "pos", dy=False)
+            xp = mk(([0.5 + v for v in Xp[0]], [0.5 + v for v in Xp[1]]))
+            ops = [("sin", lambda: x.sin()), ("cos", lambda: x.cos()), ("tanh", lambda: x.tanh()), ("np.sin", lambda: np.sin(x)), ("np.cos", lambda: np.cos(x)), ("np.tanh", lambda: np.tanh(x)),
+                   ("rpow", lambda: 2 ** x), ("rpow-frac", lambda: 0.5 ** x),
+                   ("condensation", lambda: x.condensation(rng.choice([3, 5, 20, 50]))), ("truncate", lambda: x.truncate(float(X[0][steps // 4]), float(X[1][3 * steps // 4]))),
+                   ("min", lambda: x.min(yp)), ("max", lambda: x.max(yp)),
+                   ("outer_approximate", lambda: pba.stacking(x.outer_discretisation(rng.choice([10, 40]))))]
+            for d in "fpoi":
+                ops.append((f"pow-{d}", (lambda d=d: xp.pow(yp, dependency=d))))
+            for name, f in ops:
+                chk.count("extra-" + name, key=("extra", name, kind, rep))
+                try:
+                    with warnings.catch_warnings():
+                        warnings.simplefilter("ignore")
+                        r = f()
+                except Exception:
+                    continue
+                o = observe(r)
+                if "L" not in o:
+                    continue            # some of these return other kinds (e.g. an interval for a degenerate case)
+                for k2, why in wf_problems(o, steps):
+                    chk.report(f"extra:{name}:{k2}", f"{name} on a {kind} p-box returns an ill-formed p-box: {why}",
+                               {"kind": "oracle", "operation": name, "X": X, "observed": {k: v for k, v in o.items() if k not in ("L", "R")}, "left_head": o["L"][:5], "right_tail": o["R"][-5:]})
+
+
 def body(chk):
     from pyuncertainnumber.pba.params import Params
     pr = chk.do_proofs()
@@ -385,6 +422,7 @@ def body(chk):
     except Exception:
         pass
 
+    extras(chk, steps)
     items, flat = [], []
     hist = {"ok": 0, "raised": 0, "modelled": 0, "oracle_only": 0}
     for i, tree, fast in jobs:
